@@ -1,6 +1,7 @@
 (* C07, part 2: the conflict-resolution loop of Aligner.align, generic in the slice function, so that the statements hold for the
-   code as it is (Core.slice: IndexError when the trimming loop pops the last position) and for the repaired trimming loop
-   (`while positions and ...`: an emptied slice is the empty segment). *)
+   code as it is (Core.slice, after repair F8: the trimming loop `while positions and ...` stops on the emptied list, an emptied slice
+   is the empty segment; slice never raises, hence Aligner.align never raises) and for the code before the repair
+   (TotalProofs1.slice_gen false: IndexError when the trimming loop pops the last position), kept for the regression witnesses. *)
 From Coq Require Import ZArith QArith List Bool Lia Sorting.Sorted.
 Import ListNotations.
 Require Import Py PyProofs Pairing Core Psum FacProofs FacSegs ChainCore ConflictProofs PairingProofs4 TotalProofs1.
@@ -160,7 +161,8 @@ Proof.
   - destruct (_ <? _); discriminate.
 Qed.
 
-(* the first resolution between two segments as the factory built them never raises (the code as it is) *)
+(* the first resolution between two segments as the factory built them never raises; the slices have the shapes of slice_left_ok /
+   slice_right_ok (after repair F8 this is an instance of resolve_pair_total below) *)
 Theorem resolve_pair_fresh_total a b :
   first_is_pair (positions a) -> last_is_pair (positions a) -> pairs_le_end a -> first_is_pair (positions b) ->
   exists r, resolve_pair a b = Ok r.
@@ -172,36 +174,10 @@ Proof.
   - apply slice_right_ok; assumption.
 Qed.
 
-(* ------------------------------------------------------------------------------------------------ the repaired trimming loop *)
-Fixpoint trim_rev_fix (rl : list spos) (e : pv) : res (list spos) :=
-  match rl with
-  | [] => Ok []
-  | p :: t => if negb (is_pair p) && negb (le_any p e) then trim_rev_fix t e else Ok rl
-  end.
-Definition slice_fix (s : segment) (st en : pv) : res segment :=
-  let ps := takewhile (fun p => negb (is_pair p) || le_any p en) (dropwhile (fun p => less_both p st) (positions s)) in
-  match ps with
-  | [] => Ok (seg_create [] (speak s))
-  | _ => do rl <- trim_rev_fix (rev ps) en; Ok (seg_create (rev rl) (speak s))
-  end.
-
-Lemma trim_rev_fix_total rl e : exists r, trim_rev_fix rl e = Ok r.
-Proof. induction rl as [|p t IH]; [eexists; reflexivity|]. cbn. destruct (_ && _); [exact IH | eexists; reflexivity]. Qed.
-Lemma trim_rev_fix_agree rl e r : trim_rev rl e = Ok r -> trim_rev_fix rl e = Ok r.
-Proof. induction rl as [|p t IH]; [discriminate|]. cbn. destruct (_ && _); [exact IH | exact (fun H => H)]. Qed.
-Lemma trim_rev_fix_err rl e : trim_rev rl e = Err -> trim_rev_fix rl e = Ok [].
-Proof. induction rl as [|p t IH]; [reflexivity|]. cbn. destruct (_ && _); [exact IH | discriminate]. Qed.
-
-Theorem slice_fix_total s st en : exists r, slice_fix s st en = Ok r.
-Proof. unfold slice_fix. destruct (takewhile _ _) as [|x t]; [eexists; reflexivity|].
-  destruct (trim_rev_fix_total (rev (x :: t)) en) as (r & ->). eexists; reflexivity. Qed.
-(* where the code does not raise, the repaired code returns the same; where it raises, the repaired code returns the empty segment *)
-Theorem slice_fix_agree s st en r : slice s st en = Ok r -> slice_fix s st en = Ok r.
-Proof. unfold slice, slice_fix. destruct (takewhile _ _) as [|x t]; [exact (fun H => H)|].
-  destruct (trim_rev (rev (x :: t)) en) as [rl|] eqn:E; [|discriminate]. rewrite (trim_rev_fix_agree _ _ _ E). exact (fun H => H). Qed.
-Theorem slice_fix_err s st en : slice s st en = Err -> slice_fix s st en = Ok (seg_create [] (speak s)).
-Proof. unfold slice, slice_fix. destruct (takewhile _ _) as [|x t]; [discriminate|].
-  destruct (trim_rev (rev (x :: t)) en) as [rl|] eqn:E; [discriminate|]. rewrite (trim_rev_fix_err _ _ E). reflexivity. Qed.
+(* one resolution step on two segments with defined ends never raises (slice is total after repair F8) *)
+Theorem resolve_pair_total a b : seg_defined a -> seg_defined b -> exists r, resolve_pair a b = Ok r.
+Proof. intros Ha Hb. rewrite <- resolve_pair_g_slice. apply resolve_pair_g_total; [exact Ha | exact Hb|].
+  intros cs ce _ _. split; apply slice_total. Qed.
 
 (* ------------------------------------------------------------------------------------------------ the loop never raises outside slice *)
 Lemma set_nth_length {A} (l : list A) : forall i x, length (set_nth l i x) = length l.
@@ -295,30 +271,30 @@ Proof. unfold aligner_align_g, resolve_conflicts_g. destruct (length _ <? 2)%nat
 End Mono.
 
 (* ------------------------------------------------------------------------------------------------ summary statements *)
-(* with the repaired trimming loop Aligner.align never raises, for every pair of maps (sorted or not), every list of peaks,
-   both strands, every iteration counter and every parameter set with unmatchedPenalty <= 0 < minScore *)
-Theorem aligner_fix_total P it reference query peaks reverse : SU P <= 0 -> 0 < MS P ->
-  exists segs, aligner_align_g slice_fix P it reference query peaks reverse = Ok segs.
-Proof. apply aligner_align_g_total. apply slice_fix_total. Qed.
-(* and it returns what the code as it is returns whenever that does not raise *)
-Theorem aligner_fix_agree P it reference query peaks reverse segs :
-  aligner_align P it reference query peaks reverse = Ok segs -> aligner_align_g slice_fix P it reference query peaks reverse = Ok segs.
-Proof. rewrite <- aligner_align_g_slice. apply aligner_align_g_mono. apply slice_fix_agree. Qed.
-(* the code as it is: the segments are built, ordered and chained without raising; if Aligner.align raises, it is the
-   IndexError of slice inside the resolution loop over a chain of at least two members *)
-Theorem aligner_err_only_in_loop P it reference query peaks reverse : SU P <= 0 -> 0 < MS P ->
-  aligner_align P it reference query peaks reverse = Err ->
+(* Aligner.align never raises, for every pair of maps (sorted or not), every list of peaks, both strands, every iteration counter
+   and every parameter set with unmatchedPenalty <= 0 < minScore *)
+Theorem aligner_total P it reference query peaks reverse : SU P <= 0 -> 0 < MS P ->
+  exists segs, aligner_align P it reference query peaks reverse = Ok segs.
+Proof. rewrite <- aligner_align_g_slice. apply aligner_align_g_total. apply slice_total. Qed.
+(* and it returns what the code before repair F8 returned whenever that did not raise *)
+Theorem aligner_old_agree P it reference query peaks reverse segs :
+  aligner_align_g (slice_gen false) P it reference query peaks reverse = Ok segs -> aligner_align P it reference query peaks reverse = Ok segs.
+Proof. rewrite <- aligner_align_g_slice. apply aligner_align_g_mono. apply slice_old_agree. Qed.
+(* the code before repair F8: the segments were built, ordered and chained without raising; if Aligner.align raised, it was the
+   IndexError of slice inside the resolution loop over a chain of at least two members, where the code as it is does not raise *)
+Theorem aligner_old_err_only_in_loop P it reference query peaks reverse : SU P <= 0 -> 0 < MS P ->
+  aligner_align_g (slice_gen false) P it reference query peaks reverse = Err ->
   exists ch, chain P (segs_for_peaks P it reference query peaks reverse) = Ok ch /\
              (2 <= length (segs_for_peaks P it reference query peaks reverse))%nat /\
-             resolve_loop (length ch) 0 ch [] = Err /\ exists r, resolve_loop_g slice_fix (length ch) 0 ch [] = Ok r.
+             resolve_loop_g (slice_gen false) (length ch) 0 ch [] = Err /\ exists r, resolve_loop (length ch) 0 ch [] = Ok r.
 Proof.
-  intros Hsu Hms H. unfold aligner_align, resolve_conflicts in H.
+  intros Hsu Hms H. unfold aligner_align_g, resolve_conflicts_g in H.
   destruct (length _ <? 2)%nat eqn:El; [discriminate|].
   destruct (aligner_chain_total P it reference query peaks reverse Hsu Hms) as (ch & Ech). rewrite Ech in H. cbn [bind] in H.
   exists ch. split; [exact Ech|]. split; [apply Nat.ltb_ge in El; exact El|]. split; [exact H|].
-  apply resolve_loop_g_total; [apply slice_fix_total|]. split; [constructor | intros i []]. Qed.
+  rewrite <- resolve_loop_g_slice. apply resolve_loop_g_total; [apply slice_total|]. split; [constructor | intros i []]. Qed.
 
-(* the first resolution step between any two segments Aligner.align builds (sorted maps) does not raise, the code as it is *)
+(* the first resolution step between any two segments Aligner.align builds (sorted maps) does not raise *)
 Theorem first_resolution_total P it reference query peaks reverse a b :
   StronglySorted Z.le (mpositions reference) -> StronglySorted Z.le (mpositions query) -> SU P <= 0 -> 0 < MS P ->
   In a (segs_for_peaks P it reference query peaks reverse) -> In b (segs_for_peaks P it reference query peaks reverse) ->
